@@ -1,4 +1,5 @@
 import GoCo.Driver.RuntimeDrv
+import GoCo.Driver.CompileDrv
 open GoCo
 
 def handle (line : String) : String :=
@@ -7,7 +8,10 @@ def handle (line : String) : String :=
   | some sx =>
     match runtimeRequest sx with
     | some r => r
-    | none => "bad-request"
+    | none =>
+      match MG.compileRequest sx with
+      | some r => r
+      | none => "bad-request"
 
 partial def loop (h : IO.FS.Stream) (out : IO.FS.Stream) : IO Unit := do
   let line ← h.getLine
